@@ -2286,6 +2286,7 @@ func (s *swamp) Close() {
 	}
 	// set closing to 1 immediately to prevent other transactions to be created on the swamp
 	atomic.StoreInt32(&s.closing, 1)
+	verifhook.Point("swamp.close.gate", verifhook.ID(s))
 	s.closeMutex.Unlock()
 	verifhook.Point("swamp.close.begin", verifhook.ID(s))
 
@@ -2368,6 +2369,7 @@ func (s *swamp) Destroy() {
 		return
 	}
 	s.destroyed = true
+	verifhook.Point("swamp.destroy.gate", verifhook.ID(s))
 	s.closeMutex.Unlock()
 	verifhook.Point("swamp.destroy.begin", verifhook.ID(s))
 
